@@ -291,7 +291,13 @@ static int iter_int_range_next(YR_ITERATOR* self, YR_VALUE_STACK* stack)
     // Push the false value that indicates that the iterator is not exhausted.
     stack->items[stack->sp++].i = 0;
     stack->items[stack->sp++].i = self->int_range_it.next;
-    self->int_range_it.next++;
+
+    // Do not step past INT64_MAX (signed overflow, the range would start over
+    // at INT64_MIN): an undefined "next" marks the iterator as exhausted.
+    if (self->int_range_it.next == INT64_MAX)
+      self->int_range_it.next = YR_UNDEFINED;
+    else
+      self->int_range_it.next++;
   }
   else
   {
